@@ -8,30 +8,34 @@ Monitors: the property itself on the real answers (chase every slot from every p
 import vlib, random
 
 MANIFEST = {
-  'text': 'Theorems C02_route, C02_route_dynamic, C02_no_stray_exec, C02_progress (all node lists with partition_ok + view_wfb, all slots, all start '
-          'proxies, all phase assignments made of the eight handshake pairs, all chases incl. hash-order dependent choices: <= 1 redirection for a '
-          'stable slot, <= 2 for a migrating one with phases fixed and <= 3 when the handshake advances during the chase (bound reached), end = '
-          'execution on the designated node or parked behind a raised barrier on an allowed node, never an error, never a node other than owner / '
-          'source / destination) and C02_install_of_view (the tables are the ones a proxy gets from its own broker view) about Model/Route.v, which '
-          'mirrors send_cmd_ctx / MigrationMap::send / the scan tasks\' send / SlotMap / RangeMap / TaskBlockingQueue::send; the model is tied to '
-          'the code by running real proxies fed by the real broker store through the real coordinator encoder in both encodings with the migration '
-          'handshake pinned in each of the eight phase pairs and comparing every (proxy, slot) answer, and the property monitor (chase from every '
-          'proxy for every slot) is evaluated on the real answers.',
+  'text': 'Theorems C02_reachable_route / C02_reachable_route_dynamic / C02_reachable_views: for EVERY store reachable by any sequence of broker '
+          'operations (BrokerTotal.reachable_any), every migration limit, every served cluster view, every proxy of the cluster holding what the '
+          'coordinator makes it install from its own broker view, every slot, every start proxy, every phase assignment made of the eight handshake '
+          'pairs and every chase incl. hash-order dependent choices: <= 1 redirection for a stable slot, <= 2 for a migrating one with phases fixed '
+          'and <= 3 when the handshake advances during the chase (bound reached), end = execution on the broker-designated node or parked behind a '
+          'raised barrier on an allowed node, never an error, never a node other than owner / source / destination. The only hypothesis left is '
+          'phases_ok (the property\'s own "consistent pair of migration phases"); partition_ok is C01 and view_wfb is derived (RouteProofsBroker*.v) '
+          'from C01, the C12 accounting invariant and a new store invariant proved for every operation. The view-level theorems C02_route, '
+          'C02_route_dynamic, C02_no_stray_exec, C02_progress, C02_install_of_view are kept. Model/Route.v mirrors send_cmd_ctx / '
+          'MigrationMap::send / the scan tasks\' send / SlotMap / RangeMap / TaskBlockingQueue::send; it is tied to the code by running real proxies '
+          'fed by the real broker store through the real coordinator encoder in both encodings with the handshake pinned in each of the eight '
+          'phase pairs and comparing every (proxy, slot) answer; the property monitor (chase from every proxy for every slot) runs on the real answers.',
   'note': 'Coq kernel; closed under the global context; extraction (ExtrOcamlBasic) + OCaml driver; in-process fake Redis nodes and fake control '
           'network. PARTIAL for phase races: all eight (source, destination) phase pairs are forced on the real tasks and probed while they are '
-          'stable, but a phase change DURING a chase (the third redirection) is covered by C02_route_dynamic at model level only. Hypothesis '
-          'view_wfb (normalised tagged ranges, distinct master node addresses, distinct peer proxy addresses, source proxy <> destination proxy) '
-          'is not derived from the broker invariant here; it is checked on every real view of the run. Outside the eight pairs (reachable only '
-          'through the max_blocking_time time-out of scan_task.rs) the model shows a MOVED ping-pong and a two-node split (Examples '
-          'C02_*_outside_consistent_pairs); those are not claimed. active_redirection = false only. Parked commands are recognised by a quiescence '
-          'time-out in the harness; a failing case is re-run once in isolation with a longer time-out before it is reported.',
+          'stable, but a phase change DURING a chase (the third redirection) is covered by C02_route_dynamic at model level only. The broker-level '
+          'theorems are about Model/Broker.v, whose resources get the node addresses 2a, 2a+1 (distinct node addresses per proxy are an operator '
+          'obligation in the real broker, where add_proxy takes them as arguments). Outside the eight pairs (reachable only through the '
+          'max_blocking_time time-out of scan_task.rs) the model shows a MOVED ping-pong and a two-node split (Examples '
+          'C02_*_outside_consistent_pairs, replayed on the real proxies: work/C02_witness_*.json); those are not claimed. active_redirection = false '
+          'only. Parked commands are recognised by a quiescence time-out in the harness; a failing case is re-run once in isolation with a longer '
+          'time-out before it is reported.',
   'technique': 'Coq proof over a hand-written model + differential correspondence check against real in-process proxies',
  }
 
 TRUSTED = ['Coq 8.16.1 kernel (coqc; coqchk in the thorough tier); Print Assumptions of every theorem: closed under the global context',
            'extraction with ExtrOcamlBasic only + ocaml/vio.ml, d_route.ml, driver_lib.ml',
-           'hypothesis partition_ok of the theorems = the C01 statement (Proofs/BrokerPartDefs.v), proved by the broker group; hypothesis view_wfb '
-           'checked on every real view by the extracted boolean',
+           'the broker-level theorems rest on the broker group\'s proofs (BrokerTotal, BrokerPartMain, BrokerAcct*, BrokerBalance*, '
+           'BrokerCommitAccepts) - all closed; view_wfb, now a derived fact, is still evaluated on every real view by the extracted boolean',
            'harness/route: net.rs (fake Redis nodes answering GET nil / EXISTS 0 / DUMP nil / PTTL -2 / SCAN, fake control network that hands '
            'UMCTL commands to the target proxy\'s real handler and can hold or drop PRECHECK / PRESWITCH / FINALSWITCH), store.rs (broker ops, '
            'IP-literal address scheme), dom.rs (probing, quiescence detection for parked commands, monitor)',
